@@ -5,6 +5,7 @@ CONSTANT MaxLen = 3
 CONSTANT MaxPend = 2
 CONSTANT MaxErr = 1
 CONSTANT MaxReads = 6
+CONSTANT KeepSched = TRUE
 VIEW view
 ACTION_CONSTRAINT Emit
 INVARIANT InOrderNoLossNoDupNoTear NeverValueFromCutFrame CleanEndOnlyAtBoundary UEofOnlyInsideFrame ErrorsReportedOnce InvalidLenJustified BufferBounded StaysInSync
